@@ -312,7 +312,7 @@ def propagate_new_locals(fn, known_names):
             pure = is_pure(E)
             if pure:
                 # operands must not be re-bound / re-stored between the def and the last use (textual window)
-                last = max(getattr(t, "end_lineno", t.lineno) for _, t, _ in use_stmts)
+                last = max(getattr(u_, "end_lineno", None) or getattr(u_, "lineno", 0) for _, _, u_ in use_stmts)
                 names = {n.id for n in ast.walk(E) if isinstance(n, ast.Name)}
                 chains = {_chain(n) for n in ast.walk(E) if isinstance(n, ast.Attribute)} - {None}
                 clobber = False
@@ -552,6 +552,21 @@ def _conv(stmts, sink, allow_raw_return):
                 out.append(new)
                 return out, rt
             raise CannotInline("return nested below a non-terminating branch")
+        if isinstance(st, ast.Try) and _has_return(st) and not allow_raw_return and not any(_has_return(x) for x in st.finalbody):
+            b, bt = _conv(st.body, sink, False)
+            o, ot = _conv(st.orelse, sink, False) if st.orelse else ([], False)
+            hs, all_h = [], True
+            for h in st.handlers:
+                hb, ht = _conv(h.body, sink, False)
+                all_h = all_h and ht
+                hs.append(ast.copy_location(ast.ExceptHandler(type=h.type, name=h.name, body=hb or [ast.copy_location(ast.Pass(), h)]), h))
+            main_t = ot if st.orelse else bt
+            if st.orelse and bt:
+                raise CannotInline("try body returns before its else clause")
+            if main_t and all_h:
+                out.append(ast.copy_location(ast.Try(body=b or [ast.copy_location(ast.Pass(), st)], handlers=hs, orelse=o, finalbody=st.finalbody), st))
+                return out, True
+            raise CannotInline("try with returns on some paths only")
         if _has_return(st) and not isinstance(st, FUNC + (ast.ClassDef,)):
             if allow_raw_return:
                 out.append(st)
